@@ -263,3 +263,11 @@ func verifConstRound(c any) (any, bool, bool) {
 
 // C09: package compiler has no package-level variable that is written outside initialisers.
 //@ scan[C09.globals.compiler] C09 pkgglobals github.com/risor-io/risor/compiler:
+
+// (*Code).Root: the outermost enclosing code object, named croot(c) in contracts (a function of the code object: the
+// parent links are set once by newChild / codeFromState - scan C09.code.writers).
+//@ func (*Code).Root
+//@ trusted
+//@ modifies nothing
+//@ ensures result == uf("code.root", *Code, c)
+
